@@ -16,7 +16,8 @@
    lemmas are reused.) *)
 From RxVerif Require Import Base.Prelude Ops.Machine Subjects.Subject Subjects.Family Subjects.Replay
   Subjects.ReplaySpec Subjects.ReplaySched Subjects.SubjectFacts Subjects.ReplayFacts Subjects.ReplayTreeFacts
-  Subjects.ReplayLiveFacts Subjects.ReplaySchedFacts Subjects.ReplayDrainFacts Subjects.ReplayTermFacts.
+  Subjects.ReplayLiveFacts Subjects.ReplaySchedFacts Subjects.ReplayDrainFacts Subjects.ReplayTermFacts
+  Subjects.ReplayTreeTermFacts.
 
 (* ---- the main statements: for BOTH scheduler modes, ARBITRARY call trees
         (observers that subscribe, unsubscribe, emit, complete, dispose from
@@ -103,6 +104,106 @@ Theorem C22_explicit_programs_terminate :
     sc_k (srun sync (rreact_tbl []) fuel (xinit_cfg bs w prog)) = [].
 Proof. exact (@explicit_programs_terminate). Qed.
 Print Assumptions C22_explicit_programs_terminate.
+
+(* ---- TERMINATION ON CALL TREES.  A tree is a history of top-level calls plus a reaction TABLE
+        [tbl] (observer o answers its k-th callback with the calls [nth k sc []] of its script;
+        beyond the script it is silent).  The wrapper's call counter grows at every delivery and
+        an observer is never re-created, so every table entry is used AT MOST ONCE in a run: the
+        total re-emission budget of a table is finite and the run of EVERY tree finishes, in
+        both scheduler modes, for every buffer size and window.  Measure: the measure of the flat
+        case + (weight of a call) * (number of calls in the table entries not used yet). ---- *)
+Theorem C22_trees_terminate :
+  forall (A : Type) (sync : bool) (bs w : option Z) (top : list (@rop A))
+         (tbl : list (nat * list (list (@rop A)))),
+  exists fuel0, forall fuel, (fuel0 <= fuel)%nat ->
+    sc_k (srun sync (rreact_tbl tbl) fuel (sinit_cfg sync bs w top)) = [].
+Proof. exact (@trees_terminate). Qed.
+Print Assumptions C22_trees_terminate.
+
+(* the function the harness evaluates reports `finished` for every history (tree) *)
+Theorem C22_run_shistory_finishes :
+  forall (A : Type) (sync : bool) (bs w : option Z) (h : rhistory A),
+  exists fuel0, forall fuel, (fuel0 <= fuel)%nat -> snd (run_shistory sync bs w fuel h) = true.
+Proof. exact (@run_shistory_finishes). Qed.
+Print Assumptions C22_run_shistory_finishes.
+
+(* ... so the delivery theorem for trees LOSES its hypothesis `the run has finished`: on every
+   call tree, with enough fuel, the run is finished and every observer that has not unsubscribed
+   has received EXACTLY the retained values, the terminal notification if any, and every later
+   notification ([C22_trees_terminate] composed with [C22_finished_run_delivers_everything]) *)
+Theorem C22_trees_deliver_everything :
+  forall (A : Type) (sync : bool) (bs w : option Z) (top : list (@rop A))
+         (tbl : list (nat * list (list (@rop A)))),
+  exists fuel0, forall fuel, (fuel0 <= fuel)%nat ->
+    let c := srun sync (rreact_tbl tbl) fuel (sinit_cfg sync bs w top) in
+    sc_k c = [] /\
+    forall o os, sc_obs c o = Some os ->
+      (ra_stopped os = false \/ has_term (rview o (slog_of c)) = true) ->
+      rview o (slog_of c) = xview (bufsize_of bs) w o false rg_init (ops_of (slog_of c)).
+Proof. exact (@trees_deliver_everything). Qed.
+Print Assumptions C22_trees_deliver_everything.
+
+(* the same for every PROGRAM of calls and explicit drains over a reaction table *)
+Theorem C22_tree_programs_terminate :
+  forall (A : Type) (sync : bool) (bs w : option Z) (prog : list (xtop A))
+         (tbl : list (nat * list (list (@rop A)))),
+  exists fuel0, forall fuel, (fuel0 <= fuel)%nat ->
+    sc_k (srun sync (rreact_tbl tbl) fuel (xinit_cfg bs w prog)) = [].
+Proof. exact (@tree_programs_terminate). Qed.
+Print Assumptions C22_tree_programs_terminate.
+
+Theorem C22_run_xhistory_finishes :
+  forall (A : Type) (sync : bool) (bs w : option Z) (h : xhistory A),
+  exists fuel0, forall fuel, (fuel0 <= fuel)%nat -> snd (run_xhistory sync bs w fuel h) = true.
+Proof. exact (@run_xhistory_finishes). Qed.
+Print Assumptions C22_run_xhistory_finishes.
+
+Theorem C22_tree_programs_deliver_everything :
+  forall (A : Type) (sync : bool) (bs w : option Z) (prog : list (xtop A))
+         (tbl : list (nat * list (list (@rop A)))),
+  (sync = false -> xclosed prog = true) ->
+  exists fuel0, forall fuel, (fuel0 <= fuel)%nat ->
+    let c := srun sync (rreact_tbl tbl) fuel (xinit_cfg bs w prog) in
+    sc_k c = [] /\
+    forall o os, sc_obs c o = Some os ->
+      (ra_stopped os = false \/ has_term (rview o (slog_of c)) = true) ->
+      rview o (slog_of c) = xview (bufsize_of bs) w o false rg_init (ops_of (slog_of c)).
+Proof. exact (@tree_programs_deliver_everything). Qed.
+Print Assumptions C22_tree_programs_deliver_everything.
+
+(* THE EXACT CONDITION, for an arbitrary reaction FUNCTION [react o k] (not necessarily a table):
+   finite support -- observers below B are silent from their K-th callback on and subscribe only
+   observers below B -- and a program that subscribes only observers below B.  Every table
+   satisfies it ([C22_tables_have_finite_support]). *)
+Theorem C22_finite_support_terminates :
+  forall (A : Type) (sync : bool) (react : nat -> nat -> list (@rop A)) (B K : nat),
+    finite_support react B K ->
+    forall (bs w : option Z) (k0 : list (@sinstr A)), (sub_bound k0 <= B)%nat ->
+    exists fuel0, forall fuel, (fuel0 <= fuel)%nat ->
+      sc_k (srun sync react fuel (SCfg (rinit_state bs w) (fun _ => None) k0 [])) = [].
+Proof. exact (@tree_program_terminates). Qed.
+Print Assumptions C22_finite_support_terminates.
+
+Theorem C22_tables_have_finite_support :
+  forall (A : Type) (t : list (nat * list (list (@rop A)))) (B : nat),
+    (tbl_B t <= B)%nat -> finite_support (rreact_tbl t) B (tbl_K t).
+Proof. exact (@tbl_finite_support). Qed.
+Print Assumptions C22_tables_have_finite_support.
+
+(* without it termination FAILS: the reaction function `answer every callback with one more
+   on_next` (which no finite table expresses) never finishes, for every buffer size and window,
+   in either scheduler mode and for EVERY amount of fuel -- a divergence theorem, not a test *)
+Theorem C22_echo_diverges :
+  forall (A : Type) (v : A) (sync : bool) (bs w : option Z) (fuel : nat),
+    sc_k (srun sync (echo v) fuel (sinit_cfg sync bs w [RSub 0%nat; RNext v])) <> [].
+Proof. exact (@echo_diverges). Qed.
+Print Assumptions C22_echo_diverges.
+
+Theorem C22_termination_for_arbitrary_reaction_functions_refuted :
+  ~ (forall (sync : bool) (react : nat -> nat -> list (@rop Z)) (bs w : option Z) (top : list (@rop Z)),
+       exists fuel, sc_k (srun sync react fuel (sinit_cfg sync bs w top)) = []).
+Proof. exact termination_for_arbitrary_reaction_functions_refuted. Qed.
+Print Assumptions C22_termination_for_arbitrary_reaction_functions_refuted.
 
 (* ---- the retention policy: the code keeps a queue that it trims (by count,
         then by age) at every on_next, subscribe and terminal.  [qinv] ties that
@@ -309,3 +410,17 @@ Example C22_witness_explicit_finished :
   xclosed prog = true /\ sc_k c = [] /\ (exists os, sc_obs c 1%nat = Some os /\ ra_stopped os = false) /\
   rview 1%nat (slog_of c) = [Next 0; Next 1].
 Proof. vm_compute. split; [reflexivity|]. split; [reflexivity|]. split; [eexists; split; reflexivity|reflexivity]. Qed.
+
+(* a tree whose table re-emits from two observers, with a subscription made from inside a callback:
+   the run finishes and everybody holds exactly its entitlement (the composed theorem at work) *)
+Example C22_witness_tree_finishes :
+  let tbl := [(0%nat, [[RNext 6; RSub 2%nat]; [RNext 7]]); (1%nat, [[]; [RNext 8]])] in
+  let c := srun true (rreact_tbl tbl) 1000 (sinit_cfg true None None [RSub 0%nat; RSub 1%nat; RNext 5]) in
+  sc_k c = [] /\ rview 0%nat (slog_of c) = [Next 5; Next 6; Next 7; Next 8] /\
+  rview 2%nat (slog_of c) = [Next 5; Next 6; Next 7; Next 8] /\
+  finite_support (rreact_tbl tbl) 3 2.
+Proof.
+  cbv zeta. split; [vm_compute; reflexivity|]. split; [vm_compute; reflexivity|]. split; [vm_compute; reflexivity|].
+  refine (tbl_finite_support [(0%nat, [[RNext 6; RSub 2%nat]; [RNext 7]]); (1%nat, [[]; [RNext 8]])] 3%nat _).
+  apply Nat.leb_le. vm_compute. reflexivity.
+Qed.
